@@ -77,6 +77,8 @@ def run(tier, seed):
     for cls in ('cpu', 'gpu'):
         for st in (('RRRR0', 'RFRF1') if tier == 'thorough' else ('RRRR0',)):
             E.append((wsim.E6.to_json(), cls, ('stem', 8, 4), st, ('BOOL',), (('strip_forks', True),)))
+    for cls in ('cpu', 'gpu'):
+        for st in ('RF', 'FR', 'R1'): E.append((wsim.E7.to_json(), cls, 8, st, ('BOOL',), ()))      # a port that is driven and read by two gates (bench style)
     rep.merge(common.pmap(wsim.e2e_job, E, chunksize=1))
     rep.merge(common.pmap(wsim.glue_job, wsim.glue_jobs(tier, seed), chunksize=4))          # schedule / memory-map obligations the induction relies on
     # reachability twin: the lemma machinery must reject a wrong expectation (AND2 checked against the OR2 function)
